@@ -740,9 +740,9 @@ impl<'input> Tokenizer<'input> {
                     self.recover(start, end, NonParseableInt, Token::ByteLiteral(0))?
                 }
             }
-            Some((start, ch)) if is_ident_start(ch) => {
+            Some((next, ch)) if is_ident_start(ch) => {
                 let ch = self.chars.chars.as_str_suffix().restore_char(&[ch]);
-                self.recover(start, start, UnexpectedChar(ch), ())?;
+                self.recover(next, next, UnexpectedChar(ch), ())?;
 
                 if let Ok(val) = int.parse() {
                     pos::spanned2(start, end, Token::IntLiteral(val))
